@@ -109,3 +109,18 @@ CHECKS["C13"] = {
         {"pkg": "gbnprop", "run": "TestC13LivePeer", "checks": (1200, 12000), "shards": (1, 8), "timeout": (900, 5400), "gomaxprocs": [16, 1, 2, 4]},
     ],
 }
+
+CHECKS["C12"] = {
+    "level": "exploration",
+    "rule": ("rapid-generated close events over running virtual-time scenarios: 1-5 Close calls by client/server (same or different instants, concurrent callers), at drawn moments (0, mid-burst, around resend/ping periods), "
+             "with Send blocked on a full window, Recv blocked, unacknowledged data, faults active, transport working or black-holed; context cancellation during NewClientConn/NewServerConn; and (real time) a transport whose sendFunc blocks. "
+             "Oracles: every Close returns within FIN send timeout (1s) + 50ms of virtual time; blocked Send/Recv return errors and later calls fail within 50ms; over a working transport the peer's calls fail within one latency + 50ms; "
+             "10 virtual minutes after both ends are closed no goroutine with a frame of the code under test remains in the bubble (runtime.Stack) and synctest reports no blocked goroutine. "
+             "Non-trivial: a Send was blocked or data was unacknowledged at the first Close, or several Close calls were made; every cancellation / blocking-transport case."),
+    "assumptions": ["timers without a goroutine are not observable by the leak detector", "blocking-transport cases run in real time with a 10x bound"],
+    "units": [
+        {"pkg": "gbnprop", "run": "TestC12Close", "checks": (3000, 40000), "shards": (1, 8), "timeout": (900, 5400), "gomaxprocs": [16, 1, 2, 4]},
+        {"pkg": "gbnprop", "run": "TestC12HandshakeCancel", "checks": (600, 4000), "shards": (1, 2), "timeout": (900, 5400)},
+        {"pkg": "gbnprop", "run": "TestC12BlockingTransport", "checks": (2, 12), "shards": (1, 2), "timeout": (900, 5400)},
+    ],
+}
